@@ -296,7 +296,8 @@ def _mk(cls, value):
 
 
 def witnesses():
-    """the inputs of the `decide` witnesses of Properties/C18.lean (section WP3) with real token classes:
+    """the inputs of the `decide` witnesses (and of the former witnesses that a repair in /repo turned into positive
+    statements) of Properties/C18.lean (section WP3) with real token classes:
     (label, token list as (class, value), extractor, keyword arguments, expected canonical result on the real code)"""
     from vsg import parser, token
 
@@ -305,15 +306,19 @@ def witnesses():
     op, cp = parser.open_parenthesis, parser.close_parenthesis
     pm, ae = token.port_map_aspect, token.association_element
     return [
-        # nBeforeAndAfter_negative_start: a matched token at position 0 with iToken = 1
-        ("nBeforeAndAfter_negative_start", [(comma, ","), (cr, None), (kw, "x")], "get_n_tokens_before_and_after_tokens", {"iToken": 1, "lTokens": [comma]}, "ok -1,1,N,"),
+        # nBeforeAndAfter_short_prefix_skipped (the former witness nBeforeAndAfter_negative_start, repaired in /repo):
+        # a matched token at position 0 with iToken = 1 gets no region
+        ("nBeforeAndAfter_short_prefix_skipped", [(comma, ","), (cr, None), (kw, "x")], "get_n_tokens_before_and_after_tokens", {"iToken": 1, "lTokens": [comma]}, "ok "),
         # `{k}` = serial number of the token at position k
         ("nBeforeAndAfterBounded_negative_start", [(op, "("), (comma, ","), (cp, ")"), (cr, None)], "get_n_tokens_before_and_after_tokens_bounded_by_tokens", {"iToken": 2, "lTokens": [comma], "lBetween": [op, cp]}, "ok -1,1,N,{3}"),
         ("lineWhichIncludes_first_line", [(op, "("), (kw, "x"), (comma, ","), (cp, ")"), (cr, None)], "get_line_which_includes_tokens", {"lTokens": [comma]}, "ok 3,1,-1,{3}"),
         ("fromNonWsUntil_start_none", [(kw, "x"), (comma, ","), (cr, None)], "get_tokens_from_non_whitespace_token_until_tokens", {"lTokens": [comma]}, "ok N,1,N,{0}"),
-        ("ifConditions_blank_condition", [(token.if_statement.if_keyword, "if"), (ws, " "), (parser.comment, "-- c"), (token.if_statement.then_keyword, "then"), (cr, None)], "get_if_statement_conditions", {"fRemoveWhitespace": True}, "ok 0,1,N,{2}.{1}"),
+        # ifConditions_blank_condition_skipped / _untrimmed (the former witness ifConditions_blank_condition, repaired in /repo)
+        ("ifConditions_blank_condition_skipped", [(token.if_statement.if_keyword, "if"), (ws, " "), (parser.comment, "-- c"), (token.if_statement.then_keyword, "then"), (cr, None)], "get_if_statement_conditions", {"fRemoveWhitespace": True}, "ok "),
+        ("ifConditions_blank_condition_untrimmed", [(token.if_statement.if_keyword, "if"), (ws, " "), (parser.comment, "-- c"), (token.if_statement.then_keyword, "then"), (cr, None)], "get_if_statement_conditions", {"fRemoveWhitespace": False}, "ok 1,1,N,{1}.{2}"),
         ("associationElements_restart", [(pm.open_parenthesis, "("), (ae.formal_part, "a"), (ae.formal_part, "b"), (token.association_list.comma, ","), (pm.close_parenthesis, ")"), (cr, None)], "get_association_elements_between_tokens", {"oStart": pm.open_parenthesis, "oEnd": pm.close_parenthesis}, "ok 2,1,N,{1}.{2}.{3}"),
-        ("startingEnding_blank_region", [(kw, "x"), (ws, " "), (parser.comment, "-- c"), (comma, ","), (cr, None)], "get_tokens_starting_with_token_and_ending_with_one_of_possible_tokens", {"lStartTokens": [kw], "lEndTokens": [comma], "bIncludeStartToken": False, "bIncludeEndToken": False, "bEarliestDetect": False}, "ok 0,1,N,{2}.{1}"),
+        # startingEnding_blank_region_empty (the former witness startingEnding_blank_region, repaired in /repo): the empty slice at the end token
+        ("startingEnding_blank_region_empty", [(kw, "x"), (ws, " "), (parser.comment, "-- c"), (comma, ","), (cr, None)], "get_tokens_starting_with_token_and_ending_with_one_of_possible_tokens", {"lStartTokens": [kw], "lEndTokens": [comma], "bIncludeStartToken": False, "bIncludeEndToken": False, "bEarliestDetect": False}, "ok 3,1,N,"),
         # the real extractor raises UnboundLocalError; the model answers `outside` (7th element: expected model reply)
         ("subprogramBody_unbound_witness", [(token.function_specification.function_keyword, "function"), (token.function_specification.designator, "f"), (token.subprogram_body.semicolon, ";"), (cr, None)], "get_function_subprogram_body", {}, "raise UnboundLocalError", "outside"),
     ]
